@@ -13,6 +13,8 @@ import (
 	"strings"
 
 	connect "github.com/bufbuild/connect-go"
+	"google.golang.org/protobuf/proto"
+	"google.golang.org/protobuf/reflect/protoreflect"
 	"google.golang.org/protobuf/types/known/anypb"
 	"google.golang.org/protobuf/types/known/durationpb"
 	"google.golang.org/protobuf/types/known/wrapperspb"
@@ -327,10 +329,23 @@ type clientView struct {
 	header  http.Header
 	trailer http.Header
 	hasHT   bool
+	// the trailer map obtained before the stream was drained does not show what the one obtained
+	// afterwards shows
+	heldTrailerDiffers bool
+}
+
+func fromHTTP(h http.Header) hdr {
+	out := hdr{}
+	for k, v := range h {
+		if len(v) > 0 {
+			out[k] = v
+		}
+	}
+	return out
 }
 
 // callClient runs a real client of the kind against the HTTPClient and observes everything.
-func callClient(proto, kind string, hc connect.HTTPClient, reqHeader hdr, reqMsgs [][]byte, extra ...connect.ClientOption) clientView {
+func callClient(proto, kind string, hc connect.HTTPClient, reqHeader hdr, reqMsgs [][]byte, extra ...connect.ClientOption) (v clientView) {
 	opts := append([]connect.ClientOption{connect.WithCodec(rawCodec{"raw"}), connect.WithAcceptCompression("rle", newRLEDecompressor, newRLECompressor)}, extra...)
 	switch proto {
 	case "grpc":
@@ -340,7 +355,6 @@ func callClient(proto, kind string, hc connect.HTTPClient, reqHeader hdr, reqMsg
 	}
 	cl := connect.NewClient[[]byte, []byte](hc, "http://h/s/m", opts...)
 	ctx := context.Background()
-	var v clientView
 	first := []byte{}
 	if len(reqMsgs) > 0 {
 		first = reqMsgs[0]
@@ -375,11 +389,13 @@ func callClient(proto, kind string, hc connect.HTTPClient, reqHeader hdr, reqMsg
 			v.err = err
 			return v
 		}
+		early := s.ResponseTrailer() // "not fully populated until Receive returns": the same map, filled later
 		for s.Receive() {
 			v.msgs = append(v.msgs, append([]byte{}, (*s.Msg())...))
 		}
 		v.err = s.Err()
 		v.header, v.trailer, v.hasHT = s.ResponseHeader(), s.ResponseTrailer(), true
+		v.heldTrailerDiffers = v.err == nil && showHdr(fromHTTP(early)) != showHdr(fromHTTP(v.trailer))
 		_ = s.Close()
 	default:
 		s := cl.CallBidiStream(ctx)
@@ -390,6 +406,10 @@ func callClient(proto, kind string, hc connect.HTTPClient, reqHeader hdr, reqMsg
 			}
 		}
 		_ = s.CloseRequest()
+		early := s.ResponseTrailer()
+		defer func() {
+			v.heldTrailerDiffers = v.err == nil && v.hasHT && showHdr(fromHTTP(early)) != showHdr(fromHTTP(v.trailer))
+		}()
 		for {
 			m, err := s.Receive()
 			if err != nil {
@@ -497,6 +517,9 @@ func clientRoundtrip(c *Ctx, op, proto, kind string, rec recorded, h, t hdr, sen
 					break
 				}
 			}
+		}
+		if v.heldTrailerDiffers {
+			c.Fail("rt-trailer-held-map", op, showHdr(fromHTTP(v.trailer)), "the trailer map the client obtained before draining the stream was not filled in when the stream ended")
 		}
 		zeroMsgs := len(sends) == 0
 		if k, ok := subset(h, v.header); !ok && !zeroMsgs {
@@ -964,8 +987,160 @@ func metadataProbes(c *Ctx) {
 	}
 }
 
+// cancelAtEndProbe (C03 at the protocol level, with the caller's context in play): the caller
+// takes every message of a server stream, cancels, and asks for the next one. What that Receive
+// reports must not depend on whether the transport reported the end of the body together with
+// the last bytes or on a read of its own.
+func cancelAtEndProbe(c *Ctx) {
+	for _, proto := range []string{"connect", "grpc", "grpcweb"} {
+		for _, nmsg := range []int{1, 3} {
+			var items []bodyItem
+			for i := 0; i < nmsg; i++ {
+				items = append(items, bodyItem{kind: "f", data: []byte{byte(i + 1), 7}})
+			}
+			r := &sresp{status: 200, header: hdr{"Content-Type": {ctFor(proto, "server", "raw")}}, body: items}
+			switch proto {
+			case "connect":
+				r.body = append(r.body, bodyItem{kind: "end"})
+			case "grpcweb":
+				r.body = append(r.body, bodyItem{kind: "web", header: hdr{"Grpc-Status": {"0"}}})
+			default:
+				r.trailer = hdr{"Grpc-Status": {"0"}}
+			}
+			header, body, trailer := r.serialize(proto)
+			run := func(shape transportShape) string {
+				return safely(func() string {
+					sc := &shapedClient{status: 200, header: header, trailer: trailer, body: body, shape: shape}
+					opts := []connect.ClientOption{connect.WithCodec(rawCodec{"raw"})}
+					if proto == "grpc" {
+						opts = append(opts, connect.WithGRPC())
+					} else if proto == "grpcweb" {
+						opts = append(opts, connect.WithGRPCWeb())
+					}
+					cl := connect.NewClient[[]byte, []byte](sc, "http://h/s/m", opts...)
+					ctx, cancel := context.WithCancel(context.Background())
+					defer cancel()
+					s, err := cl.CallServerStream(ctx, connect.NewRequest(&[]byte{}))
+					if err != nil {
+						return "call:" + err.Error()
+					}
+					defer s.Close()
+					got := 0
+					for got < nmsg && s.Receive() {
+						got++
+					}
+					cancel()
+					more := s.Receive()
+					return fmt.Sprintf("got=%d more=%v err=%s", got, more, codeOrOK(s.Err()))
+				})
+			}
+			base := run(transportShape{chunk: 0, eofWithData: false})
+			for _, shape := range []transportShape{{chunk: 0, eofWithData: true}, {chunk: 2, eofWithData: true}, {chunk: 5, eofWithData: false}} {
+				c.Count("probe-cancel-at-end")
+				for trial := 0; trial < 5; trial++ {
+					if alt := run(shape); alt != base {
+						c.Fail("seg-cancel-shape", fmt.Sprintf("%s server stream, %d messages taken, context cancelled, Receive again", proto, nmsg),
+							fmt.Sprintf("reads of %d bytes, EOF with data=%v: %s  |  one piece, EOF separately: %s", shape.chunk, shape.eofWithData, alt, base),
+							"what the Receive after the last message reports depends on how the transport reports the end of the body")
+						break
+					}
+				}
+			}
+		}
+	}
+}
+
+func codeOrOK(err error) string {
+	if err == nil {
+		return "none"
+	}
+	return connect.CodeOf(err).String()
+}
+
+// unconvertibleDetail is an ErrorDetail that is not an *anypb.Any and cannot be made into one
+// (its string field is not valid UTF-8): the library then reports an internal error whose
+// message quotes the detail - text the application controls.
+type unconvertibleDetail struct{ *wrapperspb.StringValue }
+
+func (d unconvertibleDetail) MessageName() protoreflect.FullName {
+	return d.ProtoReflect().Descriptor().FullName()
+}
+func (d unconvertibleDetail) UnmarshalTo(proto.Message) error { return errors.New("not supported") }
+
+// unconvertibleDetailProbe (C18, oracle only): also on this path whatever goes into
+// Grpc-Message is percent-encoded: printable ASCII on the wire, and the peer reads back the
+// bytes that went in (a literal '%' stays a '%').
+func unconvertibleDetailProbe(c *Ctx) {
+	const marker = "disk 100%41 used, 5%2f6 \u00e9"
+	for _, proto := range []string{"grpc", "grpcweb"} {
+		for _, kind := range []string{"unary", "server"} {
+			fail := func() error {
+				e := connect.NewError(connect.CodeResourceExhausted, errors.New("over quota"))
+				e.AddDetail(unconvertibleDetail{&wrapperspb.StringValue{Value: "\xff " + marker}})
+				return e
+			}
+			var h *connect.Handler
+			if kind == "unary" {
+				h = connect.NewUnaryHandler("/s/m", func(ctx context.Context, r *connect.Request[[]byte]) (*connect.Response[[]byte], error) {
+					return nil, fail()
+				}, connect.WithCodec(rawCodec{"raw"}))
+			} else {
+				h = connect.NewServerStreamHandler("/s/m", func(ctx context.Context, r *connect.Request[[]byte], s *connect.ServerStream[[]byte]) error {
+					_ = s.Send(&[]byte{1})
+					return fail()
+				}, connect.WithCodec(rawCodec{"raw"}))
+			}
+			desc := fmt.Sprintf("%s %s handler fails with an error detail that cannot be converted to an Any and quotes %q", proto, kind, marker)
+			c.Count("probe-unconvertible-detail")
+			got := safely(func() string {
+				rec := serveReal(proto, kind, false, h)
+				var msgs []string
+				msgs = append(msgs, rec.header["Grpc-Message"]...)
+				msgs = append(msgs, rec.trailer["Grpc-Message"]...)
+				if proto == "grpcweb" { // the trailer block in the body
+					for _, line := range strings.Split(string(rec.body), "\r\n") {
+						if i := strings.Index(strings.ToLower(line), "grpc-message:"); i >= 0 {
+							msgs = append(msgs, strings.TrimSpace(line[i+len("grpc-message:"):]))
+						}
+					}
+				}
+				if len(msgs) != 1 {
+					return fmt.Sprintf("%d Grpc-Message values on the wire", len(msgs))
+				}
+				for i := 0; i < len(msgs[0]); i++ {
+					if msgs[0][i] < 0x20 || msgs[0][i] > 0x7e {
+						return fmt.Sprintf("unprintable byte in Grpc-Message %q", msgs[0])
+					}
+				}
+				// independent decoder: %XX -> byte
+				var dec []byte
+				for i := 0; i < len(msgs[0]); i++ {
+					if msgs[0][i] == '%' && i+2 < len(msgs[0]) {
+						var b byte
+						if _, err := fmt.Sscanf(msgs[0][i+1:i+3], "%02X", &b); err == nil {
+							dec = append(dec, b)
+							i += 2
+							continue
+						}
+					}
+					dec = append(dec, msgs[0][i])
+				}
+				if !strings.Contains(string(dec), marker) {
+					return fmt.Sprintf("Grpc-Message %q decodes to %q", msgs[0], dec)
+				}
+				return "ok"
+			})
+			if got != "ok" {
+				c.Fail("wire-grpc-message-unencoded", desc, got, "the text does not travel percent-encoded: the peer cannot read back what went in")
+			}
+		}
+	}
+}
+
 func extraProbes(c *Ctx) {
 	metadataProbes(c)
+	unconvertibleDetailProbe(c)
+	cancelAtEndProbe(c)
 	// (1) every error a client API returns can be inspected as a Connect error — including the one
 	// from closing a response whose body fails while being drained
 	for _, proto := range []string{"connect", "grpc", "grpcweb"} {
@@ -1132,9 +1307,9 @@ func streamProto(c *Ctx) {
 	r := c.Rng
 	protos := []string{"connect", "grpc", "grpcweb"}
 	kinds := []string{"unary", "client", "server", "bidi"}
-	hkeys := []string{"X-A", "X-Multi", "X-Data-Bin", "Trace-Id", "Total-Count", "Retry-After"}
+	hkeys := []string{"X-A", "X-Multi", "X-Data-Bin", "Trace-Id", "Total-Count", "Retry-After", "Content-Language"}
 	tkeys := []string{"X-Trailer", "Trace-Id", "X-T-Bin", "Total-Count", "Transfer-Note", "Etag", "X-Trailer-Checksum", "Upstream-Trailer-Count"}
-	mkeys := []string{"X-Err", "X-Multi", "X-Err-Bin", "Trace-Id", "X-Trailer"}
+	mkeys := []string{"X-Err", "X-Multi", "X-Err-Bin", "Trace-Id", "X-Trailer", "Content-Language", "Content-Location"}
 	reps := 4
 	if c.Thorough() {
 		reps = 300
@@ -1216,6 +1391,11 @@ func mutatedResponses(c *Ctx) {
 			ct := ctFor(proto, kind, "raw")
 			for _, status := range []int{100, 101, 199, 201, 204, 206, 299, 300, 301, 304, 400, 401, 403, 404, 408, 409, 412, 413, 415, 429, 431, 500, 502, 503, 504, 505, 599} {
 				cdecOp(c, cdecLine(proto, kind, &sresp{status: status, header: hdr{"Content-Type": {ct}}}))
+			}
+			// the HTTP status decides first: an encoding the client does not know changes nothing then
+			for _, status := range []int{401, 404, 429, 503, 418} {
+				encH, _ := encHeaderFor(proto, kind)
+				cdecOp(c, cdecLine(proto, kind, &sresp{status: status, header: hdr{"Content-Type": {ct}, encH: {"zstd"}}}))
 			}
 			// grpc-status variants in trailers / headers / web frames
 			if proto != "connect" {
